@@ -388,6 +388,8 @@ impl Node {
                 helping: node.helping_slot().0.load(Relaxed),
                 control: node.helping.verif_control(),
                 active_addr: node.helping.verif_active_addr(),
+                space_offer: node.helping.verif_space_offer(),
+                own_envelope: node.helping.verif_own_envelope(),
             });
             current = unsafe { node.next.as_ref() };
         }
